@@ -4,6 +4,7 @@ C08 — Seeded sample wrappers make sample i a pure function of (data, config, s
 `KDVerif.Gen.WrapperTable.seedRows` is regenerated from /repo's wrapper sources on every run.
 -/
 import KDVerif.Lemmas.SeedFlow
+import KDVerif.Lemmas.C07Extra
 import KDVerif.Gen.WrapperTable
 import KDVerif.Props.C07
 
@@ -49,6 +50,140 @@ example : (KDVerif.Gen.WrapperTable.seedRows.any (fun r => r.name == "XTransform
       (.cons "transform" (.node "KDComposeTransform" 1 (.cons "transforms"
         (.node "KDRandomApply" 2 (.cons "transform"
           (.node "PatchwiseTransform" 3 (.cons "transform" (.node "KDRandomCrop" 4 .nil) .nil)) .nil)) .nil)) .nil) = true := by
+  constructor <;> decide +kernel
+
+/-! ## Gap theorems (audit round)
+
+Scope note on `seeded_getitem_pure` / `history_independent` above: they speak about the cells of the *members of
+the applied slots*; for rows with `applied := []` (KDMixWrapper, KDPseudoLabelWrapper: the per-sample method
+draws from the generator it builds, it holds no transforms) they say nothing. The theorems below use the object
+model `WState` / `request` / `serve` of `Model/C07Spec.lean`: the generators a request uses are the per-sample
+method's own generator *and* every cell of the applied members. -/
+
+theorem c08x_rowOk_of_mem (r : SeedRow) (hr : r ∈ KDVerif.Gen.WrapperTable.seedRows) : seedRowOk r = true := by
+  have := seed_rows_ok
+  rw [List.all_eq_true] at this
+  exact this r hr
+
+/-- the transforms of the examples: compose(random-apply(patchwise(crop))) with cell contents `a b c d` -/
+def exKids (a b c d : Nat) : Kids :=
+  .cons "transform" (.node "KDComposeTransform" a (.cons "transforms"
+    (.node "KDRandomApply" b (.cons "transform"
+      (.node "PatchwiseTransform" c (.cons "transform" (.node "KDRandomCrop" d .nil) .nil)) .nil)) .nil)) .nil
+
+def rowX : SeedRow :=
+  { name := "XTransformWrapper", seedPlusIdx := true, applied := ["transform"], seeded := ["transform"] }
+def rowMix : SeedRow := { name := "KDMixWrapper", seedPlusIdx := true, applied := [], seeded := [] }
+
+/-- the object model performs exactly the injection of the driver-checked `seededGetitem` -/
+theorem request_installs_seededGetitem (r : SeedRow) (hr : r ∈ KDVerif.Gen.WrapperTable.seedRows)
+    (seed idx : Nat) (w : WState) :
+    (request KDVerif.Gen.RngTable.table r seed idx w).1.kids =
+      seededGetitem KDVerif.Gen.RngTable.table r seed idx w.kids := by
+  simp [request, seededGetitem, c07x_requestGen r (c08x_rowOk_of_mem r hr)]
+
+/-- **clause "returns for index i a value that depends only on the wrapped data, the configuration, the seed
+    and i" — closed form, all seeded wrapper rows including KDMixWrapper / KDPseudoLabelWrapper**: the
+    generators request `idx` uses (own per-request generator first, then every cell of every applied member, any
+    nesting depth) are `seed + idx` repeated, the count being a function of the configuration skeleton only.
+    The object's state `w` (own fallback generator, all cell contents) does not occur on the right-hand side.
+    Hypothesis: the held transforms are built from the transform table (domain of the property). -/
+theorem request_gens_closed_form (r : SeedRow) (hr : r ∈ KDVerif.Gen.WrapperTable.seedRows) (seed idx : Nat)
+    (w : WState) (hc : allConform KDVerif.Gen.RngTable.table w.kids = true) :
+    (request KDVerif.Gen.RngTable.table r seed idx w).2 =
+      List.replicate (1 + (appliedDraws KDVerif.Gen.RngTable.table r.applied (eraseKids w.kids)).length)
+        (seed + idx) :=
+  c07x_request_closed _ C07.table_ok r (c08x_rowOk_of_mem r hr) seed idx w hc
+
+/-- **the wrapper's own per-request generator** (non-vacuous for rows with `applied := []`): every generator a
+    request draws from is `seed + idx`, and there is at least one — the one the per-sample method builds -/
+theorem request_draws_only_from_seed_plus_idx (r : SeedRow) (hr : r ∈ KDVerif.Gen.WrapperTable.seedRows)
+    (seed idx : Nat) (w : WState) (hc : allConform KDVerif.Gen.RngTable.table w.kids = true) :
+    seed + idx ∈ (request KDVerif.Gen.RngTable.table r seed idx w).2 ∧
+      ∀ c ∈ (request KDVerif.Gen.RngTable.table r seed idx w).2, c = seed + idx := by
+  rw [request_gens_closed_form r hr seed idx w hc]
+  constructor
+  · rw [Nat.add_comm 1, List.replicate_succ]; exact List.mem_cons_self
+  · intro c hcm; exact List.eq_of_mem_replicate hcm
+
+example : (KDVerif.Gen.WrapperTable.seedRows.any (fun r => r == rowMix)) = true ∧
+    (request KDVerif.Gen.RngTable.table rowMix 100 5 { own := 77, kids := .nil }).2 = [105] := by
+  constructor <;> decide +kernel
+
+/-- **clause "identical for repeated requests, for any order of requests" — every history**: for every list `hs`
+    of earlier requests (any indices, any order, repetitions) served by an object that started in an arbitrary
+    state `w₀`, the generators used for request `i` afterwards are those a fresh object `wf` of the same
+    configuration (same skeleton, other cell contents, other fallback generator) uses for `i` -/
+theorem request_after_any_history (r : SeedRow) (hr : r ∈ KDVerif.Gen.WrapperTable.seedRows) (seed i : Nat)
+    (hs : List Nat) (w₀ wf : WState) (hshape : eraseKids w₀.kids = eraseKids wf.kids)
+    (hc : allConform KDVerif.Gen.RngTable.table w₀.kids = true) :
+    (request KDVerif.Gen.RngTable.table r seed i (afterRequests KDVerif.Gen.RngTable.table r seed hs w₀)).2 =
+      (request KDVerif.Gen.RngTable.table r seed i wf).2 := by
+  have hsk := c07x_afterRequests_skel KDVerif.Gen.RngTable.table r seed hs w₀
+  have hcf : allConform KDVerif.Gen.RngTable.table wf.kids = true := by
+    rw [← c07x_allConform_erase, ← hshape, c07x_allConform_erase]; exact hc
+  rw [request_gens_closed_form r hr seed i _ (by rw [hsk.2]; exact hc),
+    request_gens_closed_form r hr seed i wf hcf, hsk.1, hshape]
+
+/-- **clauses "any order of requests", "any number of dataloader workers", "all index-to-worker assignments"
+    — closed form of a whole request stream**: one object (= one worker's copy of the dataset, in whatever state
+    it was forked) serving an arbitrary request sequence `reqs` uses, request by request, `pureGens` of the
+    requested index: a `map` of a function of (configuration skeleton, seed, index) over the request list. Which
+    worker serves an index, what it served before and how often is therefore irrelevant. -/
+theorem serve_closed_form (r : SeedRow) (hr : r ∈ KDVerif.Gen.WrapperTable.seedRows) (seed : Nat)
+    (reqs : List Nat) (w : WState) (hc : allConform KDVerif.Gen.RngTable.table w.kids = true) :
+    serve KDVerif.Gen.RngTable.table r seed w reqs =
+      reqs.map (pureGens KDVerif.Gen.RngTable.table r seed (eraseKids w.kids)) :=
+  c07x_serve_closed _ C07.table_ok r (c08x_rowOk_of_mem r hr) seed reqs w hc
+
+/-- two workers (arbitrary states of the same configuration, arbitrary request sequences): wherever both serve the
+    same index — at positions `p₁`, `p₂` of their sequences — they use the same generators -/
+theorem workers_agree_on_every_index (r : SeedRow) (hr : r ∈ KDVerif.Gen.WrapperTable.seedRows) (seed : Nat)
+    (reqs₁ reqs₂ : List Nat) (w₁ w₂ : WState) (hshape : eraseKids w₁.kids = eraseKids w₂.kids)
+    (hc : allConform KDVerif.Gen.RngTable.table w₁.kids = true)
+    (p₁ p₂ : Nat) (hsame : reqs₁[p₁]? = reqs₂[p₂]?) :
+    (serve KDVerif.Gen.RngTable.table r seed w₁ reqs₁)[p₁]? =
+      (serve KDVerif.Gen.RngTable.table r seed w₂ reqs₂)[p₂]? := by
+  have hc₂ : allConform KDVerif.Gen.RngTable.table w₂.kids = true := by
+    rw [← c07x_allConform_erase, ← hshape, c07x_allConform_erase]; exact hc
+  rw [serve_closed_form r hr seed reqs₁ w₁ hc, serve_closed_form r hr seed reqs₂ w₂ hc₂,
+    List.getElem?_map, List.getElem?_map, hsame, hshape]
+
+example : serve KDVerif.Gen.RngTable.table rowX 100 { own := 77, kids := exKids 1 2 3 4 } [5, 0, 5] =
+    [[105, 105, 105], [100, 100, 100], [105, 105, 105]] := by decide +kernel
+
+/-- **clause "different indices draw from different streams", tied to the request**: for `i ≠ j` no generator
+    used for request `i` (own generator or any member cell, in any object state) is a generator used for request
+    `j`; both lists are non-empty by `request_draws_only_from_seed_plus_idx` -/
+theorem distinct_index_disjoint_generators (r : SeedRow) (hr : r ∈ KDVerif.Gen.WrapperTable.seedRows)
+    (seed i j : Nat) (hij : i ≠ j) (w₁ w₂ : WState)
+    (h₁ : allConform KDVerif.Gen.RngTable.table w₁.kids = true)
+    (h₂ : allConform KDVerif.Gen.RngTable.table w₂.kids = true) :
+    ∀ c₁ ∈ (request KDVerif.Gen.RngTable.table r seed i w₁).2,
+    ∀ c₂ ∈ (request KDVerif.Gen.RngTable.table r seed j w₂).2, c₁ ≠ c₂ := by
+  intro c₁ hc₁ c₂ hc₂
+  have e₁ := (request_draws_only_from_seed_plus_idx r hr seed i w₁ h₁).2 c₁ hc₁
+  have e₂ := (request_draws_only_from_seed_plus_idx r hr seed j w₂ h₂).2 c₂ hc₂
+  omega
+
+/-- the same for the driver-checked `seededGetitem`: the generators it installs for `i` and for `j ≠ i` in the
+    drawing cells of the applied members differ -/
+theorem distinct_index_disjoint_cells (r : SeedRow) (hr : r ∈ KDVerif.Gen.WrapperTable.seedRows)
+    (seed i j : Nat) (hij : i ≠ j) (kids₁ kids₂ : Kids)
+    (h₁ : allConform KDVerif.Gen.RngTable.table kids₁ = true)
+    (h₂ : allConform KDVerif.Gen.RngTable.table kids₂ = true) :
+    ∀ c₁ ∈ appliedDraws KDVerif.Gen.RngTable.table r.applied (seededGetitem KDVerif.Gen.RngTable.table r seed i kids₁),
+    ∀ c₂ ∈ appliedDraws KDVerif.Gen.RngTable.table r.applied (seededGetitem KDVerif.Gen.RngTable.table r seed j kids₂),
+      c₁ ≠ c₂ := by
+  intro c₁ hc₁ c₂ hc₂
+  have e₁ := seeded_getitem_pure r hr seed i kids₁ h₁ c₁ hc₁
+  have e₂ := seeded_getitem_pure r hr seed j kids₂ h₂ c₂ hc₂
+  omega
+
+example : appliedDraws KDVerif.Gen.RngTable.table rowX.applied
+      (seededGetitem KDVerif.Gen.RngTable.table rowX 100 5 (exKids 1 2 3 4)) = [105, 105] ∧
+    appliedDraws KDVerif.Gen.RngTable.table rowX.applied
+      (seededGetitem KDVerif.Gen.RngTable.table rowX 100 6 (exKids 9 8 7 6)) = [106, 106] := by
   constructor <;> decide +kernel
 
 end KDVerif.C08
